@@ -15,7 +15,8 @@
                                                   compact(#extrinsics) ++ concatenated body entries
                                                   (the protobuf parse is done by the harness)
    [32]byte hashes and the other fixed byte arrays are decoded element by element by pkg/scale:
-   TArray n TU8; []byte fields are TBytes; types.Extrinsic (a named []byte) is TSlice TU8. *)
+   TArray n TU8; []byte fields are TBytes; types.Extrinsic and types.OtherDigest (named []byte types)
+   are TSlice TU8 (pkg/scale decodes them element by element). *)
 From Common Require Import Bytes Outcome.
 From Scale Require Import Compact Types Spec Codec.
 Local Open Scope N_scope.
@@ -32,7 +33,7 @@ Definition s_sig : ty := TArray 64 TU8.
 Definition s_pk : ty := TArray 32 TU8.
 Definition s_digestdata : ty := st [TArray 4 TU8; TBytes].
 Definition s_digestitem : ty :=
-  enum [(4, s_digestdata); (5, s_digestdata); (6, s_digestdata); (8, st [])].
+  enum [(0, TSlice TU8); (4, s_digestdata); (5, s_digestdata); (6, s_digestdata); (8, st [])].
 Definition s_digest : ty := TSlice s_digestitem.
 Definition s_header : ty := st [s_hash; TUint; s_hash; s_hash; s_digest].
 
@@ -145,5 +146,5 @@ Definition with_bytes (c : cfg) : cfg :=
   {| fix_read := fix_read c; fix_big := fix_big c; fix_bytes := true; fix_map := fix_map c;
      fix_uint57 := fix_uint57 c; strict_map := strict_map c |}.
 Definition bytes_alloc (t : ty) (bs : list byte) : bool :=
-  (alloc_budget bs <? decode_cost current t bs) &&
+  (alloc_budget bs <? 2 * decode_cost current t bs) &&
   (decode_cost (with_bytes current) t bs <=? alloc_budget bs).
